@@ -41,7 +41,7 @@ ASSUMPTIONS = [
     "virtual clock as in C14",
 ]
 MIN_NONTRIVIAL = 200
-REQUIRED_COUNTERS = ["schedules", "coarse_schedules_exhaustive", "line_level_schedules", "line_events", "context_switches", "lock_contentions", "first_request_sharing_checked", "render_schedules", "free_running_runs"]
+REQUIRED_COUNTERS = ["schedules", "coarse_schedules_exhaustive", "line_level_schedules", "line_events", "context_switches", "lock_contentions", "first_request_sharing_checked", "render_schedules", "free_running_runs", "beaker_first_use_races"]
 SHARDS = {"quick": 32, "thorough": 64}
 
 _st = {"sched": None}
@@ -613,6 +613,74 @@ def run_module_namespace_race(res):
         shutil.rmtree(d, ignore_errors=True)
 
 
+def run_beaker_first_use(res):
+    """first-use initialisation of a cached def with the default (Beaker) backend: several free-running renders ask
+    for the same, not yet cached, key at once.  Like every sequential order of those renders, the body runs ONCE and
+    all of them show that one execution's text; Beaker's per-key creation lock is what the late renders wait on.
+    The body holds the door open (waits up to 0.3 s for a second thread to come in) so that an unguarded
+    check-then-create lets both in."""
+    import time as _time
+
+    try:
+        import beaker  # noqa: F401
+    except ImportError:
+        res.count("beaker_missing")
+        return
+    for section in ("def", "page", "block"):
+        _st["bk"] = _st.get("bk", 0) + 1
+        uri = "/bk_%d_%d.html" % (os.getpid(), _st["bk"])
+        lk = _st["TemplateLookup"](cache_impl="beaker", cache_args={"type": "memory"})
+        if section == "def":
+            text = '<%def name="slow()" cached="True">[${enter(who)} for ${who}]</%def>${slow()}'
+        elif section == "page":
+            text = '<%page cached="True"/>[${enter(who)} for ${who}]'
+        else:
+            text = '<%block name="b" cached="True">[${enter(who)} for ${who}]</%block>'
+        lk.put_string(uri, text)
+        tpl = lk.get_template(uri)
+        inside = []
+        second = threading.Event()
+        lock = threading.Lock()
+
+        def enter(who):
+            with lock:
+                inside.append(who)
+                if len(inside) >= 2:
+                    second.set()
+            second.wait(0.3)
+            return who
+
+        outs = {}
+        start = threading.Barrier(3)
+
+        def work(i):
+            who = "W%d" % i
+            try:
+                start.wait(10)
+                outs[i] = ("out", tpl.render_unicode(enter=enter, who=who))
+            except Exception as e:
+                outs[i] = ("exc", "%s: %s" % (type(e).__name__, e))
+
+        ths = [threading.Thread(target=work, args=(i,), daemon=True) for i in range(3)]
+        for t in ths:
+            t.start()
+        for t in ths:
+            t.join(30)
+        res.evaluations += 1
+        res.count("beaker_first_use_races")
+        if any(t.is_alive() for t in ths):
+            res.violate("thread-blocked", "first use of a cached %s (Beaker backend) by three renders: a thread is still blocked after 30 s" % section)
+            continue
+        vals = sorted(outs.values())
+        if any(v[0] != "out" for v in vals):
+            res.violate("unexpected-exception", "first use of a cached %s (Beaker backend) by three renders: %r" % (section, vals))
+        elif len(inside) != 1 or len(set(vals)) != 1 or vals[0][1] != "[%s for %s]" % (inside[0], inside[0]):
+            res.violate("cached-section-not-sequential", "first use of a cached %s (Beaker backend) by three renders at once: the body ran %d times (%s), outputs %r - "
+                        "in every sequential order it runs once and all three show that execution" % (section, len(inside), ",".join(inside), outs),
+                        witness="concurrent first request for one cached section, Beaker backend")
+        res.nontrivial("beaker-first-use", section)
+
+
 # ------------------------------------------------------------------ plumbing
 def gen_cases(tier, seed):
     for name, (_, threads, _, cbound) in SCENARIOS.items():
@@ -681,6 +749,8 @@ def run_case(case):
         run_free_lookup(r, res)
         run_render_schedule(None, res, {"kind": "free"}, nthreads=3, free=True)
         run_module_namespace_race(res)
+        if case["index"] % 2 == 0:
+            run_beaker_first_use(res)
     elif k == "replay":
         st = sched.DFS(case["prefix"], case["bound"])
         run_schedule(case["scenario"], st, case["line"], res, case)
